@@ -351,8 +351,7 @@ def stepCore (s : Sess) (c : Cmd) : Sess × String × String :=
 /-! ### the pointer-level model alongside -/
 
 def plUnsupported : List String :=
-  ["sort", "mk_sub", "mk_copy_shallow", "mk_copy_deep", "mk_filter",
-   "it_add", "it_remove", "it_replace", "zit_add", "zit_remove", "zit_replace"]
+  ["it_add", "it_remove", "it_replace", "zit_add", "zit_remove", "zit_replace"]
 
 /-- rebuild the pointer-level state from the sequence-level one (fresh nodes, linked canonically) -/
 def resync (s : Sess) : Sess :=
@@ -426,6 +425,14 @@ def plStep (old s : Sess) (c : Cmd) : Sess :=
       chk (setP s k r.2.2.1 (some r.2.2.2.1)) r.2.2.2.2
     | "reverse" => let r := PSList.reverse s.pst h; setP s k r.1 (some r.2)
     | "filter_mut" => let r := PSList.filterMut LSeq.predEven s.pst h m; chk (setP s k r.2.1 (some r.2.2.1)) r.2.2.2
+    | "sort" => let r := PSList.sort (LSeq.stableSort LSeq.cmpNum) s.pst h m; chk (setP s k r.2.1 (some r.2.2.1)) r.2.2.2
+    | "mk_sub" | "mk_copy_shallow" | "mk_copy_deep" | "mk_filter" =>
+      if (getM old to).isSome || to == k then s else
+      let r := if c.op == "mk_sub" then PSList.sublist s.pst h (c.nat "b" 0) (c.nat "e" 0) m
+               else if c.op == "mk_copy_shallow" then PSList.copy id s.pst h m
+               else if c.op == "mk_copy_deep" then PSList.copy LSeq.cpPlus s.pst h m
+               else PSList.filter LSeq.predEven s.pst h m
+      chk (setP s to r.2.1 r.2.2.1) r.2.2.2
     | _ => s
   | _, _ => s
 
